@@ -2,6 +2,7 @@ import Poly.Util.Proto
 import Poly.Model.Codec
 import Poly.Model.SchemaDrvLedger
 import Poly.Model.SchemaDrvP2P
+import Poly.Model.SchemaDrvRecords
 /- Drivers of the codec families. `drv_codec <family>` reads op lines on stdin, one outcome line per op line.
    family `codec` (C01): primitives of ZeroCopySink / ZeroCopySource / serialization.* -/
 open Poly
@@ -232,4 +233,5 @@ def main (args : List String) : IO Unit :=
   | ["codec"] => Proto.run ({} : CodecDrv.St) CodecDrv.step
   | ["ledgerobj"] => Proto.run () (fun _ toks => ((), Poly.Model.SchemaDrv.stepLedger toks))
   | ["p2p"] => Proto.run () (fun _ toks => ((), Poly.Model.SchemaDrv.stepP2P toks))
+  | ["records"] => Proto.run () (fun _ toks => ((), Poly.Model.SchemaDrv.stepRecords toks))
   | _ => IO.eprintln "usage: drv_codec <family>"
